@@ -199,6 +199,7 @@ func (server *SugarDB) handleCommand(ctx context.Context, message []byte, conn *
 	// If the command is a write command, wait for state copy to finish.
 	if internal.IsWriteCommand(command, subCommand) {
 		server.waitForStateCopy()
+		defer server.stateMutationInProgress.Store(false)
 	}
 
 	// Handle other commands that need to be synced across the cluster
